@@ -16,31 +16,82 @@ import (
 // Family C: real frpc <-> fault relay <-> real frps (in-process, or a sacrificial child: uses vnode).
 
 type cEnv struct {
-	c           *h.Case
-	pair        hb
-	mux         bool
-	n           int
-	user        string
-	names       []string // as frpc and frps know them ("<user>.<name>")
-	tcpNames    []string
-	tcpPorts    []int
-	visitorPort int
-	srvText     string
-	srv         *h.Server
-	child       *h.Child
-	useChild    bool
-	relay       *faultRelay
-	cli         *h.Client
-	status      *statusProbe
-	be          *h.TCPBackend
-	ident       string
-	runID       string
-	logins      atomic.Int64 // server.registerControl.beforeStart hits for runID
-	loginsAt    int64        // value of logins when the current fault phase began
-	acceptAt    int          // relay accept count when the current fault phase began
-	kinds       []string
-	healed      int
-	timed       int
+	c          *h.Case
+	pair       hb
+	mux        bool
+	n          int
+	user       string
+	names      []string // as frpc and frps know them ("<user>.<name>"), sorted; derived from proxies
+	tcpNames   []string
+	tcpPorts   []int
+	header     string   // common part of the client configuration
+	proxies    []pxSpec // the configuration in force (changed by reloads)
+	visitors   []visSpec
+	removed    []string // names taken out by a reload: must be gone at the client and at the server
+	gonePorts  []int    // remote ports given up by a reload: must not be bound any more
+	nextIdx    int
+	reloadNote string // set once a reload was applied during an outage: what was reloaded when
+	srvText    string
+	srv        *h.Server
+	child      *h.Child
+	useChild   bool
+	relay      *faultRelay
+	cli        *h.Client
+	status     *statusProbe
+	be         *h.TCPBackend
+	ident      string
+	runID      string
+	logins     atomic.Int64 // server.registerControl.beforeStart hits for runID
+	loginsAt   int64        // value of logins when the current fault phase began
+	acceptAt   int          // relay accept count when the current fault phase began
+	kinds      []string
+	healed     int
+	timed      int
+}
+
+type pxSpec struct {
+	name       string // without the user prefix
+	tcp        bool
+	remotePort int
+}
+
+type visSpec struct {
+	name, server string
+	port         int
+}
+
+// configText renders the configuration in force.
+func (e *cEnv) configText() string {
+	var sb strings.Builder
+	sb.WriteString(e.header)
+	for _, p := range e.proxies {
+		if p.tcp {
+			fmt.Fprintf(&sb, "[[proxies]]\nname = \"%s\"\ntype = \"tcp\"\nlocalIP = \"127.0.0.1\"\nlocalPort = %d\nremotePort = %d\n", p.name, e.be.Port, p.remotePort)
+		} else {
+			fmt.Fprintf(&sb, "[[proxies]]\nname = \"%s\"\ntype = \"stcp\"\nsecretKey = \"k\"\nlocalIP = \"127.0.0.1\"\nlocalPort = %d\n", p.name, e.be.Port)
+		}
+	}
+	for _, v := range e.visitors {
+		fmt.Fprintf(&sb, "[[visitors]]\nname = \"%s\"\ntype = \"stcp\"\nserverName = \"%s\"\nsecretKey = \"k\"\nbindAddr = \"127.0.0.1\"\nbindPort = %d\n", v.name, v.server, v.port)
+	}
+	return sb.String()
+}
+
+// derive recomputes the name / port lists the oracles use from the configuration in force.
+func (e *cEnv) derive() {
+	e.names, e.tcpNames, e.tcpPorts = nil, nil, nil
+	for _, p := range e.proxies {
+		e.names = append(e.names, e.user+"."+p.name)
+		if p.tcp {
+			e.tcpNames = append(e.tcpNames, e.user+"."+p.name)
+			e.tcpPorts = append(e.tcpPorts, p.remotePort)
+		}
+	}
+	sort.Strings(e.names)
+	e.n = len(e.proxies)
+	if e.cli != nil {
+		e.status = &statusProbe{cli: e.cli, names: e.names, absent: e.removed}
+	}
 }
 
 func cScript(k int, rng interface{ Intn(int) int }, thorough bool) (phases []string, n int, child bool) {
@@ -108,6 +159,12 @@ func pairCase(c *h.Case, k int) {
 	}
 	e.pair = hbPairs[(k+k/12)%len(hbPairs)]
 	e.mux = (k%2 == 0) != ((k/12)%2 == 1)
+	runPair(c, e, phases, "C", k < 2)
+}
+
+// runPair sets up frps, relay, backend and frpc for e (pair, mux, n, useChild chosen by the caller) and runs the phases.
+func runPair(c *h.Case, e *cEnv, phases []string, fam string, sample bool) {
+	rng := c.Rng
 	scope := rng.Intn(2) == 0
 	pool := rng.Intn(2)
 	e.user = fmt.Sprintf("c%d", c.Idx)
@@ -158,8 +215,7 @@ transport.maxPoolCount = 2
 	}
 	defer e.be.Close()
 
-	var sb strings.Builder
-	fmt.Fprintf(&sb, `
+	e.header = fmt.Sprintf(`
 serverAddr = "127.0.0.1"
 serverPort = %d
 user = "%s"
@@ -176,30 +232,26 @@ transport.heartbeatTimeout = %d
 		nTCP = 2
 	}
 	for i := 0; i < e.n; i++ {
-		name := fmt.Sprintf("p%03d", i)
-		e.names = append(e.names, e.user+"."+name)
-		if i < nTCP {
-			e.tcpNames = append(e.tcpNames, e.user+"."+name)
-			e.tcpPorts = append(e.tcpPorts, ports[2+i])
-			fmt.Fprintf(&sb, "[[proxies]]\nname = \"%s\"\ntype = \"tcp\"\nlocalIP = \"127.0.0.1\"\nlocalPort = %d\nremotePort = %d\n", name, e.be.Port, ports[2+i])
-		} else {
-			fmt.Fprintf(&sb, "[[proxies]]\nname = \"%s\"\ntype = \"stcp\"\nsecretKey = \"k\"\nlocalIP = \"127.0.0.1\"\nlocalPort = %d\n", name, e.be.Port)
+		s := pxSpec{name: fmt.Sprintf("p%03d", i), tcp: i < nTCP}
+		if s.tcp {
+			s.remotePort = ports[2+i]
 		}
+		e.proxies = append(e.proxies, s)
 	}
+	e.nextIdx = e.n
 	if e.n >= 3 {
 		// a visitor of the same client to one of its own stcp proxies: the visitor path must heal as well
-		e.visitorPort = ports[4]
-		fmt.Fprintf(&sb, "[[visitors]]\nname = \"v0\"\ntype = \"stcp\"\nserverName = \"p002\"\nsecretKey = \"k\"\nbindAddr = \"127.0.0.1\"\nbindPort = %d\n", ports[4])
+		e.visitors = append(e.visitors, visSpec{name: "v0", server: "p002", port: ports[4]})
 	}
-	sort.Strings(e.names)
+	e.derive()
 	t0 := h.Now()
-	e.cli, err = h.StartClientText(prop, sb.String())
+	e.cli, err = h.StartClientText(prop, e.configText())
 	if err != nil {
 		run.Inconclusive("C: client did not start: " + err.Error())
 		return
 	}
 	defer e.cli.Close()
-	e.status = &statusProbe{cli: e.cli, names: e.names}
+	e.derive()
 	if !e.awaitRecovery("start", t0) {
 		return
 	}
@@ -225,13 +277,13 @@ transport.heartbeatTimeout = %d
 	if ok {
 		e.finalLedger()
 	}
-	run.Count("C_recoveries", int64(e.healed))
-	run.Count("C_timed_or_steady_phases", int64(e.timed))
+	run.Count(fam+"_recoveries", int64(e.healed))
+	run.Count(fam+"_timed_or_steady_phases", int64(e.timed))
 	if e.healed+e.timed > 0 {
-		run.Distinct(fmt.Sprintf("C|%d/%d|mux=%v|n=%d|child=%v|%s", e.pair.I, e.pair.T, e.mux, e.n, e.useChild, strings.Join(e.kinds, ",")))
+		run.Distinct(fmt.Sprintf("%s|%d/%d|mux=%v|n=%d|child=%v|%s", fam, e.pair.I, e.pair.T, e.mux, e.n, e.useChild, strings.Join(e.kinds, ",")))
 	}
-	if k < 2 {
-		run.Sample(map[string]any{"family": "C", "phases": phases, "proxies": e.n, "mux": e.mux, "interval_s": e.pair.I, "timeout_s": e.pair.T, "connection_attempts_seen": e.relay.AcceptCount()})
+	if sample {
+		run.Sample(map[string]any{"family": fam, "phases": phases, "proxies": e.n, "mux": e.mux, "interval_s": e.pair.I, "timeout_s": e.pair.T, "connection_attempts_seen": e.relay.AcceptCount()})
 	}
 }
 
@@ -299,6 +351,20 @@ func (e *cEnv) healthy() (bool, string) {
 			if !have[n] {
 				return false, "server: " + n + " not registered"
 			}
+			delete(have, n)
+		}
+		for n := range have {
+			if strings.HasPrefix(n, e.user+".") {
+				return false, "server: " + n + " is registered but not configured"
+			}
+		}
+		if len(e.gonePorts) > 0 {
+			lp := h.OwnTCPListenPorts()
+			for _, port := range e.gonePorts {
+				if lp[port] {
+					return false, fmt.Sprintf("server: port %d, given up by the last configuration, is still bound", port)
+				}
+			}
 		}
 	}
 	for i := range e.tcpPorts {
@@ -306,10 +372,10 @@ func (e *cEnv) healthy() (bool, string) {
 			return false, fmt.Sprintf("echo through %s: %v", e.tcpNames[i], err)
 		}
 	}
-	if e.visitorPort != 0 {
-		id, err := h.AskIdent(fmt.Sprintf("127.0.0.1:%d", e.visitorPort), 5*time.Second)
+	for _, v := range e.visitors {
+		id, err := h.AskIdent(fmt.Sprintf("127.0.0.1:%d", v.port), 5*time.Second)
 		if err != nil || id != e.ident+"|" {
-			return false, fmt.Sprintf("echo through the stcp visitor: %q %v", id, err)
+			return false, fmt.Sprintf("echo through the stcp visitor %s: %q %v", v.name, id, err)
 		}
 	}
 	return true, ""
@@ -330,6 +396,12 @@ func (e *cEnv) awaitRecovery(kind string, heal int64) bool {
 	if !ok {
 		if e.child != nil && e.child.Exited() {
 			run.Inconclusive("C: child frps exited")
+			return false
+		}
+		if e.reloadNote != "" && e.relogged() {
+			// the client did log in again: what is wrong is which configuration the new session runs
+			e.c.Violation("recovered-session-runs-stale-configuration", "mux=%v heartbeat %d/%d, %s: %.1f s after the server was reachable again frpc is logged in, but the tunnels do not match the configuration in force (%d proxies, %d visitors): %s",
+				e.mux, e.pair.I, e.pair.T, e.reloadNote, secs(now-heal), len(e.proxies), len(e.visitors), why)
 			return false
 		}
 		e.c.Violation("no-recovery-after-"+kind, "mux=%v, %d proxies, heartbeat %d/%d: %.1f s after the server was reachable again the tunnels are not back (%s); connection attempts since: %d",
@@ -620,6 +692,9 @@ func (e *cEnv) phase(ph string) bool {
 		e.timed++
 		return e.awaitRecovery(kind, h.Now())
 
+	case "reload-outage":
+		return e.reloadOutage(arg)
+
 	case "refuse", "down":
 		d := time.Duration(argN) * time.Millisecond
 		if kind == "down" {
@@ -707,4 +782,190 @@ func (e *cEnv) finalLedger() {
 		return
 	}
 	run.Count("C_final_ledgers_clean", 1)
+}
+
+// applyReload changes the configuration in force and hands it to the running frpc the way `frpc reload` does.
+func (e *cEnv) applyReload(kind string) (string, bool) {
+	var what string
+	switch kind {
+	case "add":
+		s := pxSpec{name: fmt.Sprintf("p%03d", e.nextIdx), tcp: true, remotePort: pa.Get()}
+		e.nextIdx++
+		e.proxies = append(e.proxies, s)
+		what = fmt.Sprintf("tcp proxy %s (remote port %d) added", s.name, s.remotePort)
+	case "remove":
+		// the last tcp proxy if two are left, otherwise the last stcp proxy no visitor points at
+		idx := -1
+		nTCP := 0
+		for i, p := range e.proxies {
+			if p.tcp {
+				nTCP++
+				if nTCP >= 2 {
+					idx = i
+				}
+			}
+		}
+		for i := len(e.proxies) - 1; i >= 0 && idx < 0; i-- {
+			used := e.proxies[i].tcp
+			for _, v := range e.visitors {
+				used = used || v.server == e.proxies[i].name
+			}
+			if !used {
+				idx = i
+			}
+		}
+		if idx < 0 {
+			return "", false
+		}
+		s := e.proxies[idx]
+		e.proxies = append(append([]pxSpec(nil), e.proxies[:idx]...), e.proxies[idx+1:]...)
+		e.removed = append(e.removed, e.user+"."+s.name)
+		if s.tcp {
+			e.gonePorts = append(e.gonePorts, s.remotePort)
+		}
+		what = fmt.Sprintf("proxy %s removed", s.name)
+	case "change":
+		for i := range e.proxies {
+			if e.proxies[i].tcp {
+				old := e.proxies[i].remotePort
+				e.proxies[i].remotePort = pa.Get()
+				e.gonePorts = append(e.gonePorts, old)
+				what = fmt.Sprintf("remote port of %s changed from %d to %d", e.proxies[i].name, old, e.proxies[i].remotePort)
+				break
+			}
+		}
+	case "add-visitor":
+		target := ""
+		for _, p := range e.proxies {
+			if !p.tcp {
+				target = p.name
+			}
+		}
+		if target == "" {
+			return "", false
+		}
+		v := visSpec{name: fmt.Sprintf("v%d", e.nextIdx), server: target, port: pa.Get()}
+		e.nextIdx++
+		e.visitors = append(e.visitors, v)
+		what = fmt.Sprintf("stcp visitor %s to %s (bind port %d) added", v.name, target, v.port)
+	}
+	if what == "" {
+		return "", false
+	}
+	_, ps, vs, err := h.LoadClientConfig(prop, e.configText())
+	if err != nil {
+		fmt.Fprintf(os.Stderr, "case %d: reloaded configuration does not load: %v\n", e.c.Idx, err)
+		return "", false
+	}
+	if err := e.cli.Svc.UpdateAllConfigurer(ps, vs); err != nil {
+		fmt.Fprintf(os.Stderr, "case %d: UpdateAllConfigurer: %v\n", e.c.Idx, err)
+		return "", false
+	}
+	e.derive()
+	return what, true
+}
+
+// reloadOutage: the session is lost and the server stays unreachable; while frpc sits in its login back-off the
+// configuration is reloaded; then the server is reachable again. The recovered session must run the configuration
+// in force now (the LAST one): everything added carries traffic, everything removed is gone, at both ends.
+func (e *cEnv) reloadOutage(arg string) bool {
+	outage, reload, _ := strings.Cut(arg, ":")
+	start := h.Now()
+	var stopWatch chan struct{}
+	switch outage {
+	case "down":
+		e.relay.Down()
+	case "refuse":
+		e.relay.refuse.Store(true)
+		e.relay.CutAll()
+	case "restart":
+		e.stopServer()
+	case "blackhole":
+		var must []*relayPair
+		for _, p := range e.relay.Live() {
+			if yes, _ := p.dieWithSession(e.mux); yes {
+				must = append(must, p)
+			}
+		}
+		e.relay.freeze.Store(true)
+		stopWatch = make(chan struct{})
+		go e.relay.watchSockets(stopWatch)
+		// frpc must first give the silent session up by itself
+		gone := waitUntil(teardownGrace(e.pair.T)+15*time.Second, func() bool {
+			for _, p := range must {
+				if p.clientGone.Load() == 0 {
+					return false
+				}
+			}
+			return true
+		})
+		if !gone {
+			close(stopWatch)
+			e.relay.CutAll()
+			e.relay.freeze.Store(false)
+			e.c.Violation("silent-server-not-detected", "relay in blackhole mode, mux=%v heartbeat %d/%d: frpc still holds its connection %.1f s after the silence began", e.mux, e.pair.I, e.pair.T, secs(h.Now()-start))
+			return false
+		}
+	default:
+		run.Inconclusive("C: unknown outage " + outage)
+		return false
+	}
+	// let frpc run into the outage: at least one failed attempt (connection refused is invisible to the relay: wait instead)
+	if outage == "down" || outage == "blackhole" {
+		time.Sleep(time.Duration(1200+e.c.Rng.Intn(1200)) * time.Millisecond)
+	} else {
+		waitUntil(10*time.Second, func() bool { return len(e.relay.Accepts(start+1, h.Now())) > 0 })
+		time.Sleep(time.Duration(100+e.c.Rng.Intn(900)) * time.Millisecond)
+	}
+	what, ok := e.applyReload(reload)
+	if ok {
+		e.reloadNote = fmt.Sprintf("%s %.1f s into a %s outage", what, secs(h.Now()-start), outage)
+		e.c.Ev("reload", "what", what, "t", h.Now(), "outage", outage)
+		run.Count("R_reloads_during_outage", 1)
+	}
+	time.Sleep(time.Duration(200+e.c.Rng.Intn(1000)) * time.Millisecond)
+	switch outage {
+	case "down":
+		if err := e.relay.Up(); err != nil {
+			run.Inconclusive("C: relay could not listen again")
+			return false
+		}
+	case "refuse":
+		e.relay.refuse.Store(false)
+	case "restart":
+		if !e.startServer(50) {
+			run.Inconclusive("C: frps did not start again")
+			return false
+		}
+	case "blackhole":
+		close(stopWatch)
+		e.relay.CutAll()
+		e.relay.freeze.Store(false)
+	}
+	heal := h.Now()
+	if !ok {
+		run.Inconclusive("C: reload could not be applied")
+		return e.awaitRecovery(outage+"-outage", heal)
+	}
+	return e.awaitRecovery("reload-during-"+outage+":"+reload, heal)
+}
+
+// reloadCase (family R): reloads during outages, all 16 (outage, reload) pairs over 8 cases.
+func reloadCase(c *h.Case, k int) {
+	outages := []string{"down", "refuse", "restart", "blackhole"}
+	reloads := []string{"add", "remove", "change", "add-visitor"}
+	e := &cEnv{c: c}
+	var phases []string
+	for j := 0; j < 2; j++ {
+		i := (2*k + j) % 16
+		phases = append(phases, "reload-outage:"+outages[i%4]+":"+reloads[(i/4+i%4)%4])
+	}
+	if k >= 8 && c.Rng.Intn(2) == 0 {
+		phases = append(phases, "cut")
+	}
+	e.n = []int{20, 5, 20, 150}[(k/8)%4]
+	e.pair = hbPairs[k%len(hbPairs)]
+	e.mux = (k%2 == 0) != ((k/8)%2 == 1)
+	c.Data["phases"] = phases
+	runPair(c, e, phases, "R", k < 1)
 }
